@@ -51,8 +51,9 @@ def digitsVal : Bytes → Nat → Nat
 def arrayIndex (tok : Bytes) : Option Nat :=
   match tok with
   | [] => none
-  | [48] => some 0
-  | c :: cs => if 49 ≤ c ∧ c ≤ 57 ∧ cs.all isDigit then some (digitsVal (c :: cs) 0) else none
+  | c :: cs =>
+    if c = 48 then (if cs = [] then some 0 else none)
+    else if 49 ≤ c ∧ c ≤ 57 ∧ cs.all isDigit then some (digitsVal (c :: cs) 0) else none
 
 /-- §4 evaluation -/
 def eval : JVal → List Bytes → Option JVal
